@@ -4,7 +4,7 @@
    (Generated/Gen_Strop.v: reserved lists incl. Python's keywords+builtins, reserved patterns and
    encoding rules as regex ASTs, prefixes, handler kinds) and with the interpreter's \s \d isspace tables.
    Strings are lists of code points; identifier types are arbitrary strings. *)
-From Verif Require Import StropInst StropThmRe StropThmEnc StropThm StropThmPipe StropThmInst Gen_Pin_strop_methods.
+From Verif Require Import StropInst StropThmRe StropThmEnc StropThm StropThmPipe StropThmCache StropThmInst Gen_Pin_strop_methods.
 Open Scope N_scope.
 
 (* ---- source tie of the model itself ----
@@ -37,11 +37,42 @@ Proof. discriminate. Qed.
 Example C09_strop_methods_shape_pinned : pin_strop_methods_ok = true.
 Proof. reflexivity. Qed.
 
-(* the same soundness statement for every configuration override the correspondence run exercises (cfg_sel k, k >= 1) *)
+(* the same soundness statement for each of the FINITELY many configurations the correspondence run exercises: cfg_sel k is the
+   shipped configuration for k = 0 and for k beyond the dumped overrides, override k-1 of Gen_Strop.cfgs_ov otherwise -- a sweep,
+   not a statement about all configurations (that is strop_sound_any_config / _partial above) *)
 Theorem strop_sound_overrides : forall k l (ty s t : str), s <> [] -> strop_sel k l ty s = Ok t ->
   valid_ident t = true /\ reserved_sel k l t = false /\ pattern_sel k l ty t = false.
 Proof. exact strop_sound_sel. Qed.
 Print Assumptions strop_sound_overrides.
+
+(* ---- TOTALITY: a token is ALWAYS returned -- every non-empty code-point string, every identifier type but `all`.
+   The model can fail only where the code raises (no fuel, no engine limit), so this says TokenEncoder.strop cannot raise
+   RuntimeError under the shipped configuration.  Side conditions recomputed from the regenerated data (StropThmTotal.v). ---- *)
+Theorem strop_total_c : forall (ty s : str), s <> [] -> str_eqb (lower ty) ty_all = false -> exists t, strop_c ty s = Ok t.
+Proof. exact strop_total_c_thm. Qed.
+Print Assumptions strop_total_c.
+
+Theorem strop_total_cpp : forall (ty s : str), s <> [] -> str_eqb (lower ty) ty_all = false -> exists t, strop_cpp ty s = Ok t.
+Proof. exact strop_total_cpp_thm. Qed.
+Print Assumptions strop_total_cpp.
+
+Theorem strop_total_py : forall (ty s : str), s <> [] -> str_eqb (lower ty) ty_all = false -> exists t, strop_py ty s = Ok t.
+Proof. exact strop_total_py_thm. Qed.
+Print Assumptions strop_total_py.
+
+(* every DSDL name -- valid_ident = [A-Za-z_][A-Za-z0-9_]*, NO length bound (pydsdl only removes names from this set) --
+   reserved or not, for every language and identifier type: a token comes back and it is legal and unreserved *)
+Theorem strop_dsdl_identifier : forall l (ty s : str), valid_ident s = true -> str_eqb (lower ty) ty_all = false ->
+  exists t, strop_lang l ty s = Ok t /\ valid_ident t = true /\ reserved_lang l t = false /\ pattern_lang l ty t = false.
+Proof. exact strop_dsdl_ident_thm. Qed.
+Print Assumptions strop_dsdl_identifier.
+
+(* the exact outcome set *)
+Theorem strop_outcomes : forall l (ty s : str), s <> [] ->
+  (str_eqb (lower ty) ty_all = true /\ strop_lang l ty s = ErrValue)
+  \/ (str_eqb (lower ty) ty_all = false /\ exists t, strop_lang l ty s = Ok t).
+Proof. exact strop_outcomes_thm. Qed.
+Print Assumptions strop_outcomes.
 
 (* ---- soundness: whatever is returned is a valid, unreserved identifier -- ALL strings, ALL id types ---- *)
 Theorem strop_sound_c : forall (ty s t : str), s <> [] -> strop_c ty s = Ok t ->
@@ -79,18 +110,11 @@ Theorem strop_sound_any_config : forall (cfg : strop_cfg), sc_reverify cfg = tru
 Proof. exact strop_sound_reverify_gen. Qed.
 Print Assumptions strop_sound_any_config.
 
-(* quirk model (sc_reverify := false, the tree without the fix): the C configuration with reserved_identifiers overridden to
-   [a; _a] returns the reserved `_a` for `a` -- known finding F-STROP-HANDLER-UNVERIFIED *)
-Theorem strop_sound_override_refuted :
-  exists ty s t, s <> [] /\ strop py_uni py_isspace cfg_c_override ty s = Ok t /\ is_reserved cfg_c_override t = true.
-Proof. exact strop_sound_override_refuted_thm. Qed.
-Print Assumptions strop_sound_override_refuted.
-
-(* which of the two is live for /repo as it is NOW (decided by the regenerated flag strop_reverifies): with the fix all three
-   languages re-verify, the witness override is sound and `a` is rejected; without it the witness override returns `_a` *)
-Theorem strop_override_state : override_state.
-Proof. exact override_state_thm. Qed.
-Print Assumptions strop_override_state.
+(* /repo has that re-verification NOW (the flag is regenerated by T1 from the source of strop); the refutation for the tree
+   before the fix lives in History/C09_history.v *)
+Theorem strop_final_token_reverified : strop_reverifies = true /\ forall l, sc_reverify (cfg_of l) = true.
+Proof. exact strop_reverified_now_thm. Qed.
+Print Assumptions strop_final_token_reverified.
 
 (* Python's reserved list contains keyword.kwlist + dir(builtins) of the interpreter that runs nunavut (a table the translator
    takes from the interpreter itself, not from nunavut.lang.py) *)
@@ -121,12 +145,43 @@ Theorem strop_id_cpp_partial : forall (ty t : str),
 Proof. exact strop_id_cpp_partial_thm. Qed.
 Print Assumptions strop_id_cpp_partial.
 
-(* ---- determinism: strop is a function of (configuration, type, token); the lru_cache in front of it returns
-        exactly what the uncached call returns as long as every cached entry was produced by strop ---- *)
-Theorem lru_transparent : forall l n c ty s,
-  cache_ok l c -> snd (strop_cached py_uni py_isspace (cfg_of l) n c ty s) = strop_lang l ty s.
-Proof. exact strop_cached_result. Qed.
-Print Assumptions lru_transparent.
+(* ---- distinctness is NOT claimed by C09 and does not hold: two different DSDL names (first [A-Za-z_], then any number of [A-Za-z0-9_]) can be given the
+   same token -- witness c, any: `if` and `_if` both become `_if` (reproduced on /repo: a DSDL type with fields `if` and `_if`
+   yields a C struct with two members `_if`).  What holds, over the full identifier alphabet with no length bound: on clean
+   names (valid, unreserved, pattern-free; for cpp without `__`) strop is the identity and therefore injective. ---- *)
+Theorem strop_injective_refuted :
+  exists l ty s1 s2 t, s1 <> s2 /\ valid_ident s1 = true /\ valid_ident s2 = true
+                       /\ strop_lang l ty s1 = Ok t /\ strop_lang l ty s2 = Ok t.
+Proof. exact strop_injective_refuted_thm. Qed.
+Print Assumptions strop_injective_refuted.
+
+Theorem strop_injective_partial : forall l (ty s1 s2 : str),
+  str_eqb (lower ty) ty_all = false -> clean_lang l ty s1 = true -> clean_lang l ty s2 = true ->
+  (l = LCpp -> has_dunder s1 = false /\ has_dunder s2 = false) ->
+  strop_lang l ty s1 = strop_lang l ty s2 -> s1 = s2.
+Proof. exact strop_injective_on_clean_thm. Qed.
+Print Assumptions strop_injective_partial.
+
+(* ---- determinism / cache isolation.  strop is a function of (configuration, type, token).  The only memoisation on the path
+   of Language.filter_id is functools.lru_cache on TokenEncoder.strop: one cache shared by ALL encoders of the process, keyed
+   by the decorated function's arguments -- regenerated: (self, token, token_type), `self` by identity, configuration frozen
+   after __init__.  For any family of configurations and ANY interleaving of calls, starting from the empty cache, every
+   call returns its own encoder's uncached answer; no hypothesis about the cache. ---- *)
+Theorem cache_key_is_model :
+  strop_cache_key = model_cache_key /\ strop_self_by_identity = true /\ encoder_attrs_frozen = true.
+Proof. repeat split; reflexivity. Qed.
+
+Theorem lru_shared_transparent : forall (enc : nat -> strop_cfg) maxsize calls,
+  run_calls py_uni py_isspace enc maxsize [] calls = map (uncached py_uni py_isspace enc) calls.
+Proof. exact lru_shared_transparent_thm. Qed.
+Print Assumptions lru_shared_transparent.
+
+(* two encoders with ANY two configurations (different prefix, reserved tables, ...) in one process never get each other's results *)
+Theorem two_encoders_isolated : forall (A B : strop_cfg) maxsize (calls : list skey),
+  run_calls py_uni py_isspace (enc2 A B) maxsize [] calls
+  = map (fun k : skey => strop py_uni py_isspace (match fst (fst k) with O => A | S _ => B end) (snd k) (snd (fst k))) calls.
+Proof. exact two_encoders_isolated_thm. Qed.
+Print Assumptions two_encoders_isolated.
 
 (* 'all' is rejected with ValueError for every token *)
 Theorem strop_type_all : forall l ty s, lower ty = ty_all -> strop_lang l ty s = ErrValue.
@@ -158,8 +213,17 @@ Example nv_clean_cpp : clean_lang LCpp ty_any [113; 122; 95; 55] = true /\ has_d
 Proof. vm_compute; split; reflexivity. Qed.
 Example nv_clean_py : clean_lang LPy ty_any [113; 122; 95; 55] = true.
 Proof. vm_compute; reflexivity. Qed.
-Example nv_cache_ok : cache_ok LC [].
-Proof. intros tok ty v H; discriminate. Qed.
+(* interleaved calls on the shipped C encoder and the one with prefix _pre_/suffix _post_, cache of 2 entries (evictions) *)
+Example nv_two_encoders :
+  run_calls py_uni py_isspace (enc2 cfg_c (cfg_sel 1 LC)) (Some 2%nat) []
+            [(0%nat, [105; 102], ty_any); (1%nat, [105; 102], ty_any); (0%nat, [105; 102], ty_any); (1%nat, [97], ty_any);
+             (0%nat, [97], ty_any); (1%nat, [105; 102], ty_any)]
+  = [Ok [95; 105; 102]; Ok [95; 112; 114; 101; 95; 105; 102; 95; 112; 111; 115; 116; 95]; Ok [95; 105; 102]; Ok [97]; Ok [97];
+     Ok [95; 112; 114; 101; 95; 105; 102; 95; 112; 111; 115; 116; 95]].
+Proof. vm_compute; reflexivity. Qed.
+(* totality hypotheses are satisfiable on reserved words: "if" is a DSDL-shaped name that is reserved everywhere *)
+Example nv_total_reserved : valid_ident [105; 102] = true /\ reserved_lang LC [105; 102] = true /\ reserved_lang LPy [105; 102] = true.
+Proof. vm_compute; repeat split; reflexivity. Qed.
 (* "__debug__" is in the interpreter table, hence reserved, hence stropped for py *)
 Example nv_py_dunder_builtin : strop_py ty_any [95; 95; 100; 101; 98; 117; 103; 95; 95] = Ok [95; 95; 100; 101; 98; 117; 103; 95; 95; 95].
 Proof. vm_compute; reflexivity. Qed.
